@@ -13,6 +13,10 @@ mod report;
 mod rng;
 mod storeutil;
 mod values;
+mod watchalloc;
+
+#[global_allocator]
+static GLOBAL: watchalloc::WatchAlloc = watchalloc::WatchAlloc;
 
 fn main() {
     let args = args::Args::parse();
